@@ -178,7 +178,7 @@ def check_case(prop, case, il, ml, ctx):
         if il != ml:
             probs.append(f"std semantics {op}: Rust {il[:200]!r} model {ml[:200]!r} on {case[:200]}")
         _kind(ctx, "std:" + op)
-    elif op in ("E5", "E6"):
+    elif op in ("E5", "E6", "E1"):
         if il != ml:
             probs.append(f"{op} block {case.split(' ')[1]}: digests differ: implementation {il} model {ml} "
                          f"(re-run the block verbosely to find the input)")
